@@ -203,7 +203,14 @@ theorem startApp_balS (cid : Nat) (blocked : List Nat) (a : App) (s : State)
     generalize bindAll cid a blocked a.listen s = r at e1
     obtain ⟨s', b⟩ := r
     cases b with
-    | true => show BalS s'.aevents _ _ _; simp only at e1; rw [e1]; exact hF
+    | true =>
+      simp only at e1
+      dsimp only
+      split
+      · simp only [Bool.false_eq_true, false_and, if_false]
+        show BalS s'.aevents _ _ _; rw [e1]; exact hF
+      · simp only [hh, Bool.true_eq_false, and_false, if_false]
+        show BalS s'.aevents _ _ _; rw [e1]; exact hF
     | false => show BalS s'.aevents _ _ _; simp only at e1; rw [e1]; exact hF
   · rename_i hh
     have hh' : a.isHttp = false := by simpa using hh
